@@ -51,7 +51,8 @@ var rules = []*Rule{
 	{ID: "R33", Title: "TIME-VERBATIM", Props: []string{"C01", "C10"}, Run: ruleR33},
 	{ID: "R34", Title: "SEGMENT-IDENTITY", Props: []string{"C01", "C12"}, Run: ruleR34},
 	{ID: "R35", Title: "LOOKUP-OUTCOMES", Props: []string{"C04", "C09", "C10"}, Run: ruleR35},
-	{ID: "R36", Title: "BOUNDARY-HAND-OFF and INDEX-WRAPPERS", Props: []string{"C10", "C09", "C04", "C03"}, Run: func(p *Prog) []Ob { return append(ruleR36(p), p.indexWrappers()...) }},
+	{ID: "R36", Title: "BOUNDARY-HAND-OFF and INDEX-WRAPPERS", Props: []string{"C10", "C09", "C04", "C03", "C13"}, Run: func(p *Prog) []Ob { return append(append(ruleR36(p), p.indexWrappers()...), p.statFresh()...) }},
+	{ID: "R39", Title: "PARAMS-FROM-OPTIONS", Props: []string{"C13", "C11"}, Run: ruleR39},
 	{ID: "R37", Title: "FINDER-SHAPE: cursor, selection, bound and key discipline of the trim/compaction finders", Props: []string{"C15", "C16"}, Run: ruleR37},
 	{ID: "R38", Title: "TRIM-PLUMBING: a wrapper deletes exactly what its finder selected", Props: []string{"C15", "C16", "C12"}, Run: ruleR38},
 	{ID: "R4", Title: "LOCK-ORDER: acyclic acquisition graph, no re-acquisition", Props: []string{"C08"}, Run: ruleR4},
